@@ -1122,6 +1122,15 @@ func (l *Ledger) Truncate(utxovmLastID []byte) error {
 	// 逐个分支裁剪到目标高度
 	for _, branchTip := range branchTips {
 		deletedBlockid := []byte(branchTip)
+		// the block of this branch that survives the cut becomes the branch's recorded tip: the target itself on
+		// the target's own branch, the stump of a side branch that forked below the target
+		survivor, findErr := l.fetchBlock(deletedBlockid)
+		for findErr == nil && survivor.Height > block.Height {
+			survivor, findErr = l.fetchBlock(survivor.PreHash)
+		}
+		if findErr != nil {
+			survivor = block // orphan chain: nothing of it survives
+		}
 		// 裁剪到目标高度
 		err = l.removeBlocks(deletedBlockid, block.Blockid, batchWrite)
 		if err != nil {
@@ -1130,7 +1139,7 @@ func (l *Ledger) Truncate(utxovmLastID []byte) error {
 			return err
 		}
 		// 更新分支高度信息
-		err = l.updateBranchInfo(block.Blockid, deletedBlockid, block.Height, batchWrite)
+		err = l.updateBranchInfo(survivor.Blockid, deletedBlockid, survivor.Height, batchWrite)
 		if err != nil {
 			l.xlog.Warn("truncate failed when calling updateBranchInfo", "err", err)
 			return err
